@@ -1,0 +1,9 @@
+//go:build verif
+
+// Contracts for package log, read by /verif/gocv (comment-only; no code).
+package log
+
+// The application-supplied logger is a pure sink: it has no effect on SDK state.
+//@ iface Interface.Debugf
+//@   names format, v
+//@   pure
